@@ -111,6 +111,7 @@ func runC06(c *Ctx, r *Report) {
 		"R-C06.7":  "difference admits an entry only on the equal-log-id edge",
 		"R-C06.10": "a log reopened through any loader keeps the access controller it was configured with",
 		"R-C06.13": "the loops that start and apply validation process every candidate",
+		"R-C06.14": "what Verify checks is what was signed: every signed part of the entry reaches the signed bytes from its own getter (adopted from C07), and the link-encrypting codec restores exactly the fields it sealed (adopted from C18) — otherwise genuine entries stop verifying or altered ones keep verifying",
 		"R-C06.12": "validation examines every error result before the next step overwrites it",
 		"R-C06.11": "the entry objects a merge installs as heads are the log's own validated objects, never the objects handed in by the other log",
 		"control":  "engine positive/negative controls analysed on every run",
@@ -120,6 +121,8 @@ func runC06(c *Ctx, r *Report) {
 	nilControls(c, r, "control")
 	optionForwarding(c, r, "R-C06.10", constructorLogSpecs(), "AccessController")
 	mergedHeadObjects(c, r, "R-C06.11")
+	importRules(c, r, "C07", []string{"R-C07.1", "R-C07.2"}, "R-C06.14")
+	importRules(c, r, "C18", []string{"R-C18.2"}, "R-C06.14")
 	loopsComplete(c, r, "R-C06.13", func(fn *Fn) bool { return rootNamed(fn, "Join", "Verify", "difference") }, "candidates after the point where the loop stops are merged without having been validated")
 	errDiscipline(c, r, "R-C06.12", func(fn *Fn) bool {
 		return rootNamed(fn, "Verify", "Join", "Append", "CanAppend", "VerifyIdentity")
